@@ -119,18 +119,38 @@ def fold(expr: ast.AST, mod: Mod, env: Optional[Dict[str, Any]] = None,
     if isinstance(expr, ast.IfExp):
         return f(expr.body) if f(expr.test) else f(expr.orelse)
     if isinstance(expr, (ast.ListComp, ast.GeneratorExp, ast.SetComp)):
-        if len(expr.generators) == 1 and not expr.generators[0].is_async:
-            g = expr.generators[0]
-            if isinstance(g.target, ast.Name):
-                out = []
-                for item in f(g.iter):
-                    env2 = dict(env or {})
-                    env2[g.target.id] = item
+        if not any(g.is_async for g in expr.generators):
+            out = []
+
+            def gen(i, env_i):
+                if i == len(expr.generators):
+                    out.append(fold(expr.elt, mod, env_i, prog, _depth + 1))
+                    return
+                g = expr.generators[i]
+                for item in fold(g.iter, mod, env_i, prog, _depth + 1):
+                    env2 = dict(env_i or {})
+                    if not _bind_fold_target(g.target, item, env2):
+                        raise Unknown("comprehension target")
                     if all(fold(c, mod, env2, prog, _depth + 1) for c in g.ifs):
-                        out.append(fold(expr.elt, mod, env2, prog, _depth + 1))
-                return frozenset(out) if isinstance(expr, ast.SetComp) else out
+                        gen(i + 1, env2)
+            gen(0, dict(env or {}))
+            return frozenset(out) if isinstance(expr, ast.SetComp) else out
         raise Unknown("comprehension")
     raise Unknown(type(expr).__name__)
+
+
+def _bind_fold_target(t, value, env) -> bool:
+    """Bind the assignment / loop target *t* (a name, or a tuple / list of targets) to a folded value."""
+    if isinstance(t, ast.Name):
+        env[t.id] = value
+        return True
+    if isinstance(t, (ast.Tuple, ast.List)) and not any(isinstance(e, ast.Starred) for e in t.elts):
+        try:
+            vals = list(value)
+        except TypeError:
+            return False
+        return len(vals) == len(t.elts) and all(_bind_fold_target(e, v, env) for e, v in zip(t.elts, vals))
+    return False
 
 
 def _fold_call(expr: ast.Call, mod: Mod, env, prog, depth):
@@ -249,10 +269,13 @@ def _call_pure(fn, call: ast.Call, mod: Mod, env, prog, depth):
     body = [s for s in node.body
             if not (isinstance(s, ast.Expr) and isinstance(s.value, ast.Constant))]
     for st in body[:-1]:
-        if isinstance(st, ast.Assign) and len(st.targets) == 1 and isinstance(st.targets[0], ast.Name):
-            local[st.targets[0].id] = fold(st.value, fn.mod, local, prog, depth + 1)
-        else:
-            raise Unknown("helper is not pure one-expression")
+        if isinstance(st, ast.Assign) and len(st.targets) == 1 and \
+                _bind_fold_target(st.targets[0], fold(st.value, fn.mod, local, prog, depth + 1), local):
+            continue
+        if isinstance(st, ast.AnnAssign) and st.value is not None and isinstance(st.target, ast.Name):
+            local[st.target.id] = fold(st.value, fn.mod, local, prog, depth + 1)
+            continue
+        raise Unknown("helper is not pure one-expression")
     if not body or not isinstance(body[-1], ast.Return) or body[-1].value is None:
         raise Unknown("helper has no final return")
     return fold(body[-1].value, fn.mod, local, prog, depth + 1)
